@@ -431,8 +431,8 @@ func (m SmallMap) Delete(key Object) (Map, bool) {
 func (m SmallMap) Append(right Map) Map {
 	if right.Len() <= MaxSmallMap { // Maybe same keys, try to keep it a SmallMap
 		res := SmallMap{len: m.len}
-		var ires Map = &res
 		copy(res.smallKV[:m.len], m.smallKV[:m.len])
+		var ires Map = res // a value, not &res: a *SmallMap is not handled by the type switches in Rest, Range, Len...
 		for _, kv := range right.mapElements() {
 			ires = ires.Set(kv.Key, kv.Value)
 		}
